@@ -118,6 +118,13 @@ def rev8(b):
 OPAQUES = {}
 ACTIVE = set()        # names that are uninterpreted in the obligation being generated
 
+def is_active(name):
+    """is the spec function `name` uninterpreted in the obligation being generated?  entries ending in '*' are prefixes"""
+    if name in ACTIVE: return True
+    for p in ACTIVE:
+        if p.endswith('*') and name.startswith(p[:-1]): return True
+    return False
+
 class Opaque:
     def __init__(self, name, impl, arg_bits, out_bits):
         self.name = name; self.impl = impl; self.arg_bits = arg_bits; self.out_bits = out_bits
@@ -125,7 +132,7 @@ class Opaque:
     def __call__(self, *args):
         # uninterpreted in this obligation: EVERY application (also on constants) is the same UF, on the code
         # side and on the spec side alike -- mixing UF(c) with the computed value f(c) would be unsound
-        if self.name in ACTIVE:
+        if is_active(self.name):
             from . import symctx
             return symctx.uf_apply(self, args)
         return self.impl(*args)
@@ -149,7 +156,7 @@ class WordFn:
         self.name = name; self.nargs = nargs; self.impl = impl; self.out = out
         self._ops = {}
     def __call__(self, w, *args):
-        if self.name in ACTIVE:
+        if is_active(self.name):
             op = self._ops.get(w)
             if op is None:
                 op = self._ops[w] = Opaque('%s_%d' % (self.name, w), lambda *a: self.impl(w, *a), [w] * self.nargs, self.out(w) if self.out else w)
